@@ -332,7 +332,7 @@ def _op_step(o, w, ids, root_id, obs):
         return ('tick',) if w.next_due() is not None else None
     if op in ('rerun', 'skip'):
         # target: a task sid, or '*' = the first task in ERROR
-        cands = [t for t in obs['tk'] if t['state'] == 'ERROR'] if o.get('target', '*') == '*' else \
+        cands = [t for t in obs['tk'] if t['state'] == 'ERROR' or (o.get('cancelled') and t['state'] == 'CANCELLED')] if o.get('target', '*') == '*' else \
             _sub_failed_parent_running(obs) if o['target'] == '*sub' else [t for t in obs['tk'] if t['sid'] == o['target']]
         if not cands:
             return None
